@@ -18,7 +18,7 @@ for d in sorted(glob.glob(os.path.join(ROOT, 'seeded', 'C*-*')), key=key):
     summ = m['summary'].replace('\n', ' ').replace('|', '/')
     if len(summ) > 230:
         summ = summ[:227] + '…'
-    c = '; '.join(f'{a} `{b}` → `{e}`' for a, b, e in caught) if caught else ('not claimed — ' + m['disposition'] if m.get('disposition') else 'NOT CAUGHT: ' + lr)
+    c = '; '.join(f'{a} `{b}` → `{e}`' for a, b, e in caught) if caught else ('— ' + m['disposition'] if m.get('disposition') else 'NOT CAUGHT: ' + lr)
     rows.append(f'| {name} | {summ} | {c} |')
 p = os.path.join(ROOT, 'DESIGN.md')
 s = open(p).read()
